@@ -197,11 +197,59 @@ def sizes(ctx, quick, thorough):
     return n
 
 
+def _tree_hash(C):
+    """content hash of everything a spec-family run depends on: /repo's Go sources, the harness sources, the driver binary"""
+    import hashlib, glob
+    h = hashlib.sha1()
+    files = sorted(glob.glob(os.path.join(C.REPO, "*.go")) + glob.glob(os.path.join(C.REPO, "post", "*.go"))
+                   + [os.path.join(C.REPO, "go.mod"), os.path.join(C.REPO, "go.sum")]
+                   + glob.glob(os.path.join(C.VERIF, "harness", "*.go")) + glob.glob(os.path.join(C.VERIF, "corpus", "spec*.jsonl"))
+                   + [C.driver_path()])
+    for f in files:
+        if f.endswith("_test.go") or not os.path.exists(f):
+            continue
+        h.update(f.encode())
+        with open(f, "rb") as fh:
+            h.update(fh.read())
+    return h.hexdigest()[:16]
+
+
+def _idx(case_id):
+    m = re.match(r".*-(\d+)-(\d+)$", str(case_id))
+    return int(m.group(2)) if m else -1
+
+
 def run(ctx, C, fam, quick, thorough):
+    """rows of a spec family. The five spec properties validate the same generated documents: within one tree state
+    (content hash of /repo's sources, the harness and the driver) the rows are computed once and shared; a smaller
+    request is a prefix of a larger one because cases are a function of (seed, index)."""
     rp = replay_file(ctx, C)
-    if rp and ctx.replay["case"].get("fam") not in (None, fam):
-        return []
-    return C.run_family_sharded(fam, sizes(ctx, quick, thorough), ctx.seed, ctx.tier, shards=16, replay=rp)
+    if rp:
+        if ctx.replay["case"].get("fam") not in (None, fam):
+            return []
+        return C.run_family_sharded(fam, 0, ctx.seed, ctx.tier, shards=16, replay=rp)
+    n = sizes(ctx, quick, thorough)
+    C.build_harness()  # the hash must see what is about to run; the driver was built by prove()
+    key = "%s_%d_%s_%s" % (fam, ctx.seed, ctx.tier, _tree_hash(C))
+    path = os.path.join(C.WORK, "cache_" + key + ".jsonl")
+    with C.Lock("speccache_" + fam):
+        if os.path.exists(path):
+            with open(path) as fh:
+                head = json.loads(fh.readline())
+                if head.get("n", 0) >= n:
+                    rows = [json.loads(l) for l in fh]
+                    return [r for r in rows if _idx(r["case"].get("id")) < n or not str(r["case"].get("id", "")).startswith(fam + "-")]
+        rows = C.run_family_sharded(fam, n, ctx.seed, ctx.tier, shards=16)
+        for old in [f for f in os.listdir(C.WORK) if f.startswith("cache_%s_" % fam) and f != os.path.basename(path)]:
+            try:
+                os.unlink(os.path.join(C.WORK, old))
+            except OSError:
+                pass
+        with open(path, "w") as fh:
+            fh.write(json.dumps({"n": n}) + "\n")
+            for r in rows:
+                fh.write(json.dumps(r) + "\n")
+        return rows
 
 
 def known_for(C, pid):
